@@ -195,7 +195,10 @@ pub(crate) fn replay_wal(
 								segment_id
 							);
 							memtables.push((Arc::clone(&current_memtable), segment_id));
-							current_memtable = Arc::new(MemTable::new(arena_size));
+							// Sized so that the batch fits whatever tower heights are drawn
+							current_memtable = Arc::new(MemTable::new(
+								arena_size.max(MemTable::arena_size_for(&batch)?),
+							));
 							// Retry on fresh memtable
 							current_memtable.add(&batch)?;
 						}
